@@ -72,6 +72,7 @@ class RecordingMixin:
         self.behaviour = {}         # token -> (kind, response size, think time)
         self.default_behaviour = ("ack", 0, 0.0)
         self.pending_by_invoke = {}
+        self.inbox = []             # every APDU handed to confirmation()/indication() of unconfirmed services
 
     def log(self, kind, **kw):
         kw.update(t=CLOCK.now, who=self.name, ev=kind)
@@ -89,6 +90,7 @@ class RecordingMixin:
         if isinstance(apdu, (AbortPDU, RejectPDU)):
             info["reason"] = apdu.apduAbortRejectReason
         self.log("confirmation", **info)
+        self.inbox.append(apdu)
         sup = super(RecordingMixin, self)
         if hasattr(sup, "confirmation"):
             try:
@@ -290,3 +292,50 @@ def decode_frame(rec):
         except W.Malformed as err:
             out["malformed"] = "apci: %s" % err
     return out
+
+
+# ----------------------------------------------------------------------
+# a device with the standard object services, and a synchronous client
+# ----------------------------------------------------------------------
+
+from bacpypes.service.device import WhoIsIAmServices, DeviceCommunicationControlServices
+from bacpypes.service.object import ReadWritePropertyServices, ReadWritePropertyMultipleServices
+from bacpypes.service.cov import ChangeOfValueServices
+
+
+class ServiceApp(Application, WhoIsIAmServices, ReadWritePropertyServices, ReadWritePropertyMultipleServices, ChangeOfValueServices):
+    pass
+
+
+class ServiceDevice:
+    """device object + application with RP/WP/RPM/COV services + the usual layers on a VLAN node"""
+
+    def __init__(self, lan, address, **device_kw):
+        self.address = Address(address)
+        self.device = make_device(int(address), **device_kw)
+        self.app = ServiceApp(self.device)
+        self.asap = ApplicationServiceAccessPoint()
+        self.smap = StateMachineAccessPoint(self.device)
+        self.smap.deviceInfoCache = self.app.deviceInfoCache
+        self.nsap = NetworkServiceAccessPoint()
+        self.nse = NetworkServiceElement()
+        bind(self.nse, self.nsap)
+        bind(self.app, self.asap, self.smap, self.nsap)
+        self.node = Node(self.address, lan)
+        self.nsap.bind(self.node)
+
+
+class SyncClient(Stack):
+    """client stack whose call() submits one confirmed request and returns the APDU that answers it"""
+
+    def __init__(self, lan, address, events=None, **kw):
+        Stack.__init__(self, lan, address, events if events is not None else [], "client%s" % address, DirectApp, **kw)
+
+    def call(self, req, horizon=20.0):
+        n0 = len(self.app.inbox)
+        self.app.request(req)
+        CLOCK.settle()
+        if len(self.app.inbox) == n0:
+            CLOCK.drive(duration=horizon)
+        got = self.app.inbox[n0:]
+        return got[0] if len(got) == 1 else (None if not got else got)
